@@ -199,7 +199,7 @@ W_PROVED = {
     'convert_contextual', 'convert_conditional', 'convert_while_loop', 'convert_return', 'convert_include',
     'convert_list_item', 'convert_enum_item', 'convert_term_item',
     # leaves and dispatchers
-    'convert_dot_chain', 'convert_field_access_plain',
+    'convert_dot_chain', 'convert_field_access_plain', 'convert_parenthesized',
     'convert_text', 'convert_space', 'convert_parbreak', 'convert_ident', 'convert_expr', 'convert_expr_impl', 'convert_pattern', 'convert_array_item', 'convert_dict_item',
     'convert_param', 'convert_destructuring_item',
     # list-based (through the list engine)
